@@ -29,7 +29,11 @@
 #ifndef MODE
 #define MODE RAID_MODE_CAUCHY
 #endif
+#ifdef VERIF_NATIVE
+#define GUARD 64 /* 64-byte aligned blocks for the SIMD variants a native replay may select */
+#else
 #define GUARD 8
+#endif
 /* disks SYM_LO..SYM_HI-1 hold fully symbolic bytes; the others hold concrete bytes derived from FILL_SEED.
  * SYM_LO=0, SYM_HI=ND is the complete statement for that geometry. */
 #ifndef SYM_LO
@@ -46,7 +50,7 @@ struct verif_in {
 	/* data blocks 0..ND-1, parity blocks ND..ND+NP-1 (holding arbitrary bytes before the call), each
 	 * followed by GUARD bytes that nobody may write. The REAL function works directly on this object, so the
 	 * bytes it reads are the very symbols the specification is evaluated on. */
-	uint8_t blk[ND + NP][SIZE + GUARD];
+	uint8_t blk[ND + NP][SIZE + GUARD] __attribute__((aligned(64)));
 };
 VERIF_DECLARE_IN
 
